@@ -145,9 +145,11 @@ fn eval_unary_expr(
     context: &mut model::Context,
 ) -> error::Result<model::Value> {
     let value = eval_union_expr(uni.value(), node.clone(), context)?;
-    let inv = uni.inv().len() % 2;
-    if inv == 0 {
+    if uni.inv().is_empty() {
         Ok(value)
+    } else if uni.inv().len() % 2 == 0 {
+        // An even number of minus signs still converts the operand to a number.
+        Ok(-(-value))
     } else {
         Ok(-value)
     }
